@@ -29,8 +29,28 @@ import (
 	"time"
 )
 
-const verifDir = "/verif"
-const repoDir = "/repo"
+// verifDir is the root of the verification framework: $VERIF_DIR, else the
+// parent of the directory holding this executable (so that a snapshot of
+// /verif is self-contained), else /verif. repoDir is $VERIF_REPO or /repo.
+var verifDir = func() string {
+	if d := os.Getenv("VERIF_DIR"); d != "" {
+		return d
+	}
+	if exe, err := os.Executable(); err == nil {
+		d := filepath.Dir(filepath.Dir(exe))
+		if _, err := os.Stat(filepath.Join(d, "cmd", "vcheck")); err == nil {
+			return d
+		}
+	}
+	return "/verif"
+}()
+
+var repoDir = func() string {
+	if d := os.Getenv("VERIF_REPO"); d != "" {
+		return d
+	}
+	return "/repo"
+}()
 
 type violation struct {
 	Property  string   `json:"property"`
@@ -313,7 +333,7 @@ func buildHarness(pc *propConfig) string {
 		}
 	}
 	hc := harnesses[pc.Harness]
-	args := []string{"-out", scratch, "-mount", strings.Join(hc.Mounts, ",")}
+	args := []string{"-out", scratch, "-repo", repoDir, "-verif", verifDir, "-mount", strings.Join(hc.Mounts, ",")}
 	if hc.RootPkgs != "" {
 		args = append(args, "-pkgs", hc.RootPkgs)
 	}
